@@ -34,9 +34,6 @@ inductive Ev
   | ub (what : String)
   deriving DecidableEq, Repr, Inhabited
 
-/-- `n` rounded up to a multiple of `a` (unbounded arithmetic; `a = 0` gives `n`). -/
-def alignUp (n a : Nat) : Nat := if n % a = 0 then n else n + (a - n % a)
-
 /-- The byte offset of element 0 in a block allocated with alignment `a`. -/
 def dataOff (a : Nat) : Nat := alignUp hdrSize a
 
